@@ -5,10 +5,14 @@
    Err (the API error, never a panic) when some field exceeds it.  For the secret vectors
    (a = b = eta) that is: rejected iff some field encodes a value above 2*eta, i.e. outside
    [-eta, eta].  The t0 fields (a+b+1 = 2^13) are always in range.
-   NOT yet proved: the lifting through sk_decode's slicing (mapM over the l+k+k chunks); decided by
-   the exhaustive field-value stream of tools/streams.py. *)
+   This is lifted through sk_decode's slicing and the NTT/Montgomery pre-computation to the API
+   (Proofs/SkDecodeProofs.v): PrivateKey::try_from_bytes returns a key iff every field of the
+   l + k packed polynomials of s1 and s2 is at most 2*eta, and Err Malformed (never a panic)
+   otherwise - for every byte string of SK_LEN bytes and each of the three parameter sets.
+   NOT yet proved: that into_bytes of an accepted key passes its own range self-check (needs the
+   Montgomery/NTT inversion of C09); decided by the stream (every accepted key is re-serialised). *)
 Require Import F204.Base.Util F204.Base.Mach F204.Gen.Params F204.Impl.Helpers F204.Impl.Conversion
-  F204.Proofs.BitPackProofs.
+  F204.Impl.Encodings F204.Impl.MlDsa F204.Impl.Api F204.Proofs.BitPackProofs F204.Proofs.SkDecodeProofs.
 Open Scope Z_scope.
 
 Theorem C10_fieldwise_acceptance : forall a b v,
@@ -34,5 +38,18 @@ Qed.
 Example C10_eta_fields : bitlen (2 + 2) = 3 /\ bitlen (4 + 4) = 4 /\ valid_ab 2 2 /\ valid_ab 4 4.
 Proof. unfold valid_ab. repeat split; vm_compute; congruence. Qed.
 
+(* the API-level statement.  [s_chunks P sk] are the l+k byte chunks holding s1 and s2;
+   [fields c ch] are the 256 c-bit fields of a chunk (c = 3 for eta = 2, c = 4 for eta = 4);
+   chunk_ok = all fields <= 2*eta; chunk_bad = some field > 2*eta *)
+Theorem C10_try_from_bytes_iff : forall P, In P all_params -> forall sk, bytes_ok sk -> zlen sk = p_sk_len P ->
+  (Forall (chunk_ok P) (s_chunks P sk) -> exists key, sk_try_from_bytes P sk = Ok key)
+  /\ (Exists (chunk_bad P) (s_chunks P sk) -> sk_try_from_bytes P sk = Err Malformed).
+Proof. exact sk_try_from_bytes_iff. Qed.
+(* the two cases are exhaustive *)
+Theorem C10_dichotomy : forall P l, Forall (chunk_ok P) l \/ Exists (chunk_bad P) l.
+Proof. exact chunks_ok_or_bad. Qed.
+
 Print Assumptions C10_fieldwise_acceptance.
+Print Assumptions C10_try_from_bytes_iff.
+Print Assumptions C10_dichotomy.
 Print Assumptions C10_accepted_is_in_range.
